@@ -606,6 +606,9 @@ func extractC03() *lean {
 
 	// ---------- F. repo-wide inventory
 	c03Inventory(l)
+
+	// ---------- I. crypto REST wrapper (deepening round): validate() check lists, status table, handler steps
+	c03ApiFacts(l)
 	return l
 }
 
